@@ -108,6 +108,19 @@ def binding_contract(ctx):
             ctx.disc(None, "model-class-ctor-arity", name, ctor[name], len(fields), stratum="binding", case=case)
         if name in order and order[name] != fields:
             ctx.disc(None, "model-class-ctor-order", name, order[name], fields, stratum="binding", case=case)
+    # the region kind is read through `.value` (0 / 1 / 2) and written through the member names
+    msrc = (env.REPO / "hugr-model" / "src" / "v0" / "mod.rs").read_text()
+    num = {m.group(2): int(m.group(1)) for m in re.finditer(r"(\d+) => Ok\(Self::(\w+)\)", msrc)}
+    names = {m.group(1): m.group(2) for m in re.finditer(r'RegionKind::(\w+) => py_class\.getattr\("(\w+)"\)', msrc)}
+    want = {names[k]: num[k] for k in names if k in num}
+    ctx.count("monitor:binding-contract")
+    case = {"class": "RegionKind"}
+    ctx.case("binding", case, True)
+    got = {m.name: m.value for m in model.RegionKind}
+    if len(want) != 3 or got != want or len(set(got.values())) != len(got) or \
+            sorted(model.RegionKind.__members__) != sorted(want):
+        ctx.disc(None, "model-region-kind-values", "RegionKind", want,
+                 {"members": got, "names": sorted(model.RegionKind.__members__)}, stratum="binding", case=case)
     return reads
 
 
@@ -528,8 +541,8 @@ def check_export(ctx, h, case, stratum, reads, body_region=None):
         return ch
 
     def walk_dfg(parent, region, where):
-        if region.kind != model.RegionKind.DATA_FLOW:
-            bad("M-HIER", [parent.idx, "kind"], "DATA_FLOW", repr(region.kind))
+        if getattr(region.kind, "value", None) != 0 or region.kind.name != "DATA_FLOW":
+            bad("M-HIER", [parent.idx, "kind"], "DATA_FLOW (value 0)", repr(region.kind))
         kids = h.children(parent)
         inp = next((c for c in kids if isinstance(h[c].op, ops.Input)), None)
         out = next((c for c in kids if isinstance(h[c].op, ops.Output)), None)
@@ -547,8 +560,8 @@ def check_export(ctx, h, case, stratum, reads, body_region=None):
         hints[parent.idx] = meta_terms(region.meta)["order"]
 
     def walk_cfg(parent, region, where):
-        if region.kind != model.RegionKind.CONTROL_FLOW:
-            bad("M-HIER", [parent.idx, "kind"], "CONTROL_FLOW", repr(region.kind))
+        if getattr(region.kind, "value", None) != 1 or region.kind.name != "CONTROL_FLOW":
+            bad("M-HIER", [parent.idx, "kind"], "CONTROL_FLOW (value 1)", repr(region.kind))
         kids = h.children(parent)
         entry, exit_ = kids[0], kids[1]
         ctx.count("monitor:M-PORTS")
@@ -565,8 +578,8 @@ def check_export(ctx, h, case, stratum, reads, body_region=None):
         walk_dfg(h.root, body_region, "fn")
     else:
         root_region = m.root
-        if root_region.kind != model.RegionKind.MODULE:
-            bad("M-HIER", "root", "MODULE", repr(root_region.kind))
+        if getattr(root_region.kind, "value", None) != 2 or root_region.kind.name != "MODULE":
+            bad("M-HIER", "root", "MODULE (value 2)", repr(root_region.kind))
         walk_children(h.root, root_region, (ops.Const,), "")
 
     # ---- M-LINK: same name <=> joined by an edge; hyperedge rule
@@ -677,7 +690,7 @@ def run(ctx):
     if ctx.shard == 1 % ctx.nshards:
         from vf.repo_corpus import documents
 
-        for c in documents():
+        for c in (ctx.guard("repo-doc", None, documents) or []):
             if c["doc"]["nodes"][0]["op"] != "Module":
                 continue
             ctx.count("monitor:repo-test-documents")
